@@ -16,7 +16,7 @@ import (
 
 // C06: no backend is used after close, closed twice, or leaked.
 
-var c06Ops = []string{"acquire", "use", "release", "reload-new-ok", "reload-same-ok", "reload-open-error", "reload-new-nokey", "reload-same-nokey", "reload-timeout-late-ok", "reload-timeout-late-err", "shutdown"}
+var c06Ops = []string{"acquire", "use", "release", "reload-new-ok", "reload-same-ok", "reload-open-error", "reload-new-nokey", "reload-same-nokey", "reload-timeout-late-ok", "reload-timeout-late-err", "shutdown", "reload-timeout-late-same"}
 
 type c06Case struct {
 	Ops    []int    `json:"ops"`    // indices into c06Ops
@@ -136,6 +136,9 @@ func c06Run(t kit.Fataler, ops []int, readerIdx []int, record bool) {
 				path, gated = fmt.Sprintf("block-new-ok#%d", seq), true
 			case "reload-timeout-late-err":
 				path, gated = fmt.Sprintf("block-err#%d", seq), true
+			case "reload-timeout-late-same":
+				// a catch-up that overruns the timeout and then succeeds on the same backend
+				path, gated = fmt.Sprintf("block-same#%d", seq), true
 			}
 			if len(live) > 0 {
 				sawReloadWithReader = true
@@ -253,7 +256,7 @@ func TestC06(t *testing.T) {
 		for i := 0; i < depth; i++ {
 			seq[i] = c % n
 			c /= n
-			if seq[i] == 8 || seq[i] == 9 {
+			if seq[i] == 8 || seq[i] == 9 || seq[i] == 11 {
 				timeouts++
 			}
 		}
@@ -275,9 +278,9 @@ func TestC06(t *testing.T) {
 		rdr := make([]int, k)
 		nt := 0
 		for i := range ops {
-			ops[i] = rapid.SampledFrom([]int{0, 0, 0, 1, 1, 2, 2, 3, 3, 4, 4, 5, 6, 7, 8, 9, 10}).Draw(t, "op")
+			ops[i] = rapid.SampledFrom([]int{0, 0, 0, 1, 1, 2, 2, 3, 3, 4, 4, 5, 6, 7, 8, 9, 10, 11}).Draw(t, "op")
 			rdr[i] = rapid.IntRange(0, 2).Draw(t, "reader")
-			if ops[i] == 8 || ops[i] == 9 {
+			if ops[i] == 8 || ops[i] == 9 || ops[i] == 11 {
 				nt++
 				if nt > 3 {
 					ops[i] = 3
